@@ -1,19 +1,20 @@
 #!/bin/sh
 # tools/mutant_mod.sh <seeded-dir-or-patch> <ID> [tier] [seeds...]
 # Like tools/mutant.sh but without touching /repo: the change is applied to a scratch worktree of /repo's HEAD
-# (removed afterwards) and the check is built against it through VERIF_MODFILE.  Uses a separate work dir so that
-# it can run next to other checks.  Exit 0 caught, 3 missed, 2 trouble.
+# (removed afterwards) and the check is built against it through VERIF_MODFILE, from a scratch worktree of /verif's
+# HEAD (committed state), so that it can run next to other checks.  Exit 0 caught, 3 missed, 2 trouble.
 p="$1"; id="$2"; tier="${3:-quick}"; shift 3 2>/dev/null || shift $#
 seeds="${*:-1}"
 [ -d "$p" ] && p="$p/patch.diff"; p=$(readlink -f "$p")
 wt=$(mktemp -d /tmp/verif-mut.XXXXXX)
 git -C /repo worktree add -q --detach "$wt/naga" HEAD || exit 2
-trap 'git -C /repo worktree remove --force "$wt/naga" >/dev/null 2>&1; rm -rf "$wt"' EXIT INT TERM
+trap 'git -C /repo worktree remove --force "$wt/naga" >/dev/null 2>&1; git -C /verif worktree remove --force "$wt/verif" >/dev/null 2>&1; rm -rf "$wt"' EXIT INT TERM
 git -C "$wt/naga" apply "$p" || { echo "patch does not apply"; exit 2; }
+git -C /verif worktree add -q --detach "$wt/verif" HEAD || exit 2
 sed "s|=> /repo|=> $wt/naga|" /verif/go.mod > "$wt/go.mod"; cp /verif/go.sum "$wt/go.sum"
 caught=3
 for s in $seeds; do
-  out=$(VERIF_MODFILE="$wt/go.mod" VERIF_SEED=$s /verif/check "$id" "$tier" 2>&1); rc=$?
+  out=$(VERIF_MODFILE="$wt/go.mod" VERIF_SEED=$s "$wt/verif/check" "$id" "$tier" 2>&1); rc=$?
   echo "$out" | grep -E "^VIOLATION|^$id (quick|thorough)|INCONCLUSIVE" | cut -c1-240 | head -4
   echo "$out" | grep -A1 "^VIOLATION" | grep "check=" | cut -c1-300 | head -3
   echo "seed=$s exit=$rc"
